@@ -605,7 +605,7 @@ def blk_shards(tier):
                 with core.quiet():
                     n = len(_fault_list(name, w))
             except Exception:
-                Wire.prepared = []
+                core.reset_prepared()
                 n = 1
             for lo in range(0, n, CHUNK):
                 out.append({'part': 'blk', 'block': name, 'w': w, 'lo': lo, 'hi': min(n, lo + CHUNK)})
@@ -619,7 +619,7 @@ def run_blk(d):
     try:
         hw, I, O = build_design(block, w)
     except Exception as e:
-        Wire.prepared = []
+        core.reset_prepared()
         return {'constructor_rejected': 1, 'configs': 1, 'vacuous_ok': True, 'distinct_outcomes': 0,
                 'samples': [{'config': d, 'rejected': repr(e)[:200]}], 'violations': []}
     faults = _fault_list(block, w)[d.get('lo', 0):d.get('hi')]
